@@ -732,6 +732,9 @@ func main() {
 		race = map[string]interface{}{"note": "the race pass belongs to C19"}
 	} else if b, err := os.ReadFile(checks.Root + "/.work/race.json"); err == nil {
 		_ = json.Unmarshal(b, &race)
+		if hung, _ := race["hung"].(bool); hung {
+			viols = append(viols, checks.Viol{Property: P, Clause: "deadlock", Sig: "race-pass-hung", Detail: "the free-running pass over the harness bodies (real sync package, 16 OS threads) did not terminate within its generous time limit - threads of the code under test block each other for ever", Kind: "race", Replay: race})
+		}
 		if n, _ := race["reports"].(float64); n > 0 {
 			viols = append(viols, checks.Viol{Property: P, Clause: "data-race", Sig: fmt.Sprint(race["first_site"]), Detail: fmt.Sprintf("the free-running race-detector pass reported %v data race(s); first: %v", n, race["first_report"]), Kind: "race", Replay: race})
 		}
